@@ -128,7 +128,31 @@ def check_vec(case, ctx):
         out = call(lambda: np.asarray(ahrs.Quaternion(inp)))
         if ctx.returned(out, route=r):
             unit_clause(ctx, r, out.value)
+    # the same vector / rows in other memory layouts: strided view, reversed-then-reversed view, read-only array, Fortran order
+    big = np.full(v.size * 2, 3.25)
+    big[::2] = v
+    ro = v.copy()
+    ro.setflags(write=False)
+    for lab, arr in (("strided view", big[::2]), ("read-only", ro), ("negative-stride view", v[::-1].copy()[::-1])):
+        before = arr.copy()
+        out = call(lambda: np.array(np.asarray(ahrs.Quaternion(arr)), float))
+        if ctx.returned(out, clause="no-exception[%s]" % lab, route=r):
+            full = v if v.size == 4 else np.r_[0.0, v]
+            sc_ = np.abs(full).max()
+            ctx.le("a vector given in another memory layout builds the same unit quaternion", np.abs(out.value - (full / sc_) / np.linalg.norm(full / sc_)).max(), 1e-14, {"layout": lab}, route=r)
+        ctx.ok("the caller's vector is left as it was", np.array_equal(arr, before), {"layout": lab}, route=r)
     r = "QuaternionArray(V)"
+    Vbig = np.full((V.shape[0], V.shape[1] * 2), 1.5)
+    Vbig[:, ::2] = V
+    for lab, arr in (("Fortran order", np.asfortranarray(V)), ("strided view", Vbig[:, ::2]), ("transposed copy", np.ascontiguousarray(V.T).T)):
+        out = call(lambda: ahrs.QuaternionArray(arr))
+        if ctx.returned(out, clause="no-exception[%s]" % lab, route=r):
+            QA_ = out.value
+            fullV = V if V.shape[1] == 4 else np.c_[np.zeros(len(V)), V]
+            scV = np.abs(fullV).max(axis=1)[:, None]
+            refV = (fullV / scV) / np.linalg.norm(fullV / scV, axis=1)[:, None]
+            ctx.le("rows given in another memory layout build the same unit quaternions (array data and .array)",
+                   max(np.abs(np.array(np.asarray(QA_), float) - refV).max(), np.abs(np.array(QA_.array, float) - refV).max()), 1e-14, {"layout": lab}, route=r)
     out = call(lambda: ahrs.QuaternionArray(V.copy()))
     if ctx.returned(out, route=r):
         Q = as_real_array(ctx, np.asarray(out.value), (len(V), 4), route=r, what="quaternion array")
